@@ -161,6 +161,10 @@ def delayOf (phase f : K) : K := div phase (mul twoPi f)
 /-- frequency of bin k as mlab reports it: `np.fft.fftfreq(NFFT, 1/Fs)[k]` (last one sign-fixed) -/
 def welchFreq (Fs : K) (NFFT k : Nat) : K := div (mul (ofNat k) Fs) (ofNat NFFT)
 
+/-- CURRENT `utils.get_freqs(Fs, N)[k]` = `np.linspace(0, Fs/2, N/2 + 1)[k]`: k · ((Fs/2) / (num − 1)) -/
+def linspaceFreq (Fs : K) (N k : Nat) : K :=
+  mul (ofNat k) (div (div Fs (ofNat 2)) (ofNat (N / 2 + 1 - 1)))
+
 /-! ### multitaper coherence (`MTCoherenceAnalyzer.coherence`, `mtm_cross_spectrum`) -/
 
 /-- weight of taper t at bin k: weights have shape (K, L) (adaptive) or (K, 1) (fixed) -/
